@@ -1,90 +1,6 @@
-// mktsverif drives the real marketstore code for the /verif checks.
-//
-//	mktsverif cases --in cases.ndjson --out obs.ndjson [--from k]
-//
-// Each input line is {"id":..., "ops":[...]} ; each output line is
-// {"id":..., "obs":[...]} written and flushed as soon as the case finished, so a
-// process death (log.Fatal, runtime fatal error) is attributable to one case.
+// mktsverif is the generic driver binary (ops of package drv only).
 package main
 
-import (
-	"bufio"
-	"encoding/json"
-	"flag"
-	"fmt"
-	"os"
+import "mktsverif/drv"
 
-	"mktsverif/drv"
-)
-
-type Case struct {
-	ID  json.RawMessage `json:"id"`
-	Ops []drv.Op        `json:"ops"`
-}
-
-var subcommands = map[string]func(args []string) int{}
-
-func casesMain(args []string) int {
-	fs := flag.NewFlagSet("cases", flag.ExitOnError)
-	in := fs.String("in", "", "input ndjson")
-	out := fs.String("out", "", "output ndjson")
-	from := fs.Int("from", 0, "skip this many cases")
-	_ = fs.Parse(args)
-	fin, err := os.Open(*in)
-	if err != nil {
-		fmt.Fprintln(os.Stderr, err)
-		return 2
-	}
-	defer fin.Close()
-	fout, err := os.OpenFile(*out, os.O_CREATE|os.O_WRONLY|os.O_APPEND, 0o644)
-	if err != nil {
-		fmt.Fprintln(os.Stderr, err)
-		return 2
-	}
-	defer fout.Close()
-	sc := bufio.NewScanner(fin)
-	sc.Buffer(make([]byte, 1<<20), 1<<30)
-	ctx := &drv.Ctx{}
-	n := 0
-	for sc.Scan() {
-		if n < *from {
-			n++
-			continue
-		}
-		n++
-		var c Case
-		d := json.NewDecoder(bytesReader(sc.Bytes()))
-		d.UseNumber()
-		if err := d.Decode(&c); err != nil {
-			fmt.Fprintln(os.Stderr, "bad case:", err)
-			return 2
-		}
-		// announce the case first so that a death is attributable
-		fmt.Fprintf(fout, "{\"begin\":%s}\n", string(c.ID))
-		obs := make([]drv.Obs, 0, len(c.Ops))
-		for i := range c.Ops {
-			obs = append(obs, ctx.Exec(&c.Ops[i]))
-		}
-		b, err := json.Marshal(map[string]interface{}{"id": c.ID, "obs": obs})
-		if err != nil {
-			fmt.Fprintln(os.Stderr, "marshal:", err)
-			return 2
-		}
-		fout.Write(append(b, '\n'))
-	}
-	return 0
-}
-
-func main() {
-	subcommands["cases"] = casesMain
-	if len(os.Args) < 2 {
-		fmt.Fprintln(os.Stderr, "usage: mktsverif <subcommand> ...")
-		os.Exit(2)
-	}
-	f, ok := subcommands[os.Args[1]]
-	if !ok {
-		fmt.Fprintln(os.Stderr, "unknown subcommand", os.Args[1])
-		os.Exit(2)
-	}
-	os.Exit(f(os.Args[2:]))
-}
+func main() { drv.Main() }
